@@ -25,7 +25,7 @@ BOUNDS = ('pipeline: 0..2 middlewares x 4 verdicts x 3 hooks x 5 reducer chains 
           'sequences <= 2 (+4 third calls) over 12 setters; selector: all sequences over 3 values up to length 5; subs: 1..4 subscribers x target x {stop, drop}; block: 2 entry points x capacities {1,2} with the reducer parked; channeled: 3 policies x capacities {1,3} x {unsubscribe, stop} with the subscriber parked; iter: 5 scenarios (<= 5 actions, Keep mix, full DropLatest queue at close); latereg: reducer / middleware / subscriber registered from another thread while an action is being reduced; twostores: stop of one store from a subscriber of another, equal/different names')
 
 
-def _run(repo, mode, work, timeout=600):
+def _run(repo, mode, work, timeout=900):
     scratch = os.path.join(work, 'witness_src')
     if not os.path.exists(scratch):
         os.makedirs(scratch)
@@ -36,6 +36,7 @@ def _run(repo, mode, work, timeout=600):
     if os.path.exists(outp):
         os.remove(outp)
     env = dict(os.environ, VERIF_WITNESS_MODE=mode, VERIF_WITNESS_OUT=outp, CARGO_NET_OFFLINE='true',
+               VERIF_WITNESS_DEPTH=('thorough' if DEPTH[0] == 'thorough' else 'quick'),
                CARGO_TARGET_DIR=os.path.join(scratch, 'target'))
     try:
         p = subprocess.run(['cargo', 'test', '--offline', '--lib', 'verif_witness', '--', '--nocapture', '--test-threads', '1'],
@@ -51,6 +52,8 @@ def _run(repo, mode, work, timeout=600):
         return dict(found=False, note='unreadable witness output: %s' % e)
 
 
+DEPTH = ['quick']
+THOROUGH_BOUNDS = ' | thorough tier adds: pipeline 3 middlewares x 4000 sampled verdict/removal assignments per chain (seeded by VERIF_SEED); channel capacities 1..6; builder all sequences <= 3; selector length <= 8'
 TIMED = ('loop', 'subs', 'block', 'channeled', 'iter', 'latereg', 'twostores')
 
 
@@ -67,7 +70,7 @@ def search(prop, failure, repo, work, seed):
         if not all(a.get('found') for a in again):
             r = dict(found=False, note='a hit of suite %s (%s) did not reproduce: discarded as timing noise' % (r.get('suite'), r.get('case')))
     r['suites'] = suites
-    r['bounds'] = BOUNDS
+    r['bounds'] = BOUNDS + (THOROUGH_BOUNDS if DEPTH[0] == 'thorough' else '')
     return r
 
 
